@@ -17,7 +17,7 @@ Qed.
 
 Lemma intToValue_in_range : forall i, Z.abs i <= two53 -> intToValue i = NInt i.
 Proof.
-  intros i H. unfold intToValue.
+  intros i H. unfold intToValue, int_in_range.
   replace (- two53 <=? i) with true by (symmetry; apply Z.leb_le; lia).
   replace (i <=? two53) with true by (symmetry; apply Z.leb_le; lia). reflexivity.
 Qed.
@@ -39,11 +39,22 @@ Proof.
   intro f. unfold floatToValue, floatToInt, canon_of.
   destruct (int_like f) eqn:E; auto.
   destruct (int_like_trunc f E) as [k [T B]]. rewrite T.
-  rewrite (go_int64_small f k T B). apply intToValue_in_range. exact B.
+  rewrite (go_int64_small f k T B). unfold int_in_range.
+  replace (- two53 <=? k) with true by (symmetry; apply Z.leb_le; lia).
+  replace (k <=? two53) with true by (symmetry; apply Z.leb_le; lia). reflexivity.
 Qed.
 
 Lemma floatToValue_canon : forall f, canon (floatToValue f) = true.
 Proof. intro f. rewrite floatToValue_eq_canon_of. apply Proofs.canon_of_canon. Qed.
+
+(* since fix 8cd79d6 intToValue is canonical for EVERY int64 (the full statement, formerly refuted: F9) *)
+Lemma intToValue_canon : forall i, canon (intToValue i) = true.
+Proof.
+  intro i. unfold intToValue. destruct (int_in_range i) eqn:E.
+  - unfold int_in_range in E. apply andb_prop in E. destruct E as [A B].
+    apply Z.leb_le in A. apply Z.leb_le in B. simpl. apply Z.leb_le. lia.
+  - apply floatToValue_canon.
+Qed.
 
 Lemma toNumeric_canon_id : forall a, canon a = true -> toNumeric a = a.
 Proof.
